@@ -155,7 +155,7 @@ func pickScenario(rng *rand.Rand, focus string) scenario {
 		sc.Cloud = rng.Intn(3) == 0
 		sc.Feat = feat("resync", "apirelease", "kubelet")
 		sc.WStep, sc.WEnv, sc.WStart = 40, 30, 30
-		if rng.Intn(4) == 0 { // configuration reloads that still contain the IPs (pools sharing the pod subnet)
+		if rng.Intn(3) == 0 { // configuration reloads that still contain the IPs (pools sharing the pod subnet)
 			sc.Cfgs, sc.NodeSub = cfgKeep, nodesTwoSubnets
 			sc.Feat["reload"] = true
 		}
